@@ -97,6 +97,10 @@ def _real_trace_ok(res, run):
   for p in range(P):
     if len([e for e in closes if e[1] == p]) != 1: bad.append("stream %d closed %d times" % (p, len([e for e in closes if e[1] == p])))
   if res.get("raised_after_close") is not True: bad.append("play after close did not raise")
+  opens = [i for i, e in enumerate(ev) if e[0] == "open"]
+  terms = [i for i, e in enumerate(ev) if e[0] == "terminate"]
+  if len(opens) != len(closes): bad.append("%d device streams were opened but %d closed" % (len(opens), len(closes)))
+  if terms and any(i > terms[0] for i in opens): bad.append("a device stream was opened after the backend was terminated")
   if any(res.get("players_alive", [])): bad.append("a player thread is still alive")
   if not run["wait"]:
     calls = res.get("calls", [])
